@@ -63,14 +63,21 @@ NewRS(t) == [exists |-> TRUE, tmpl |-> t, age |-> 0, status |-> "", desired |-> 
 NewPod(t, i) == [hash |-> t, rs |-> i, phase |-> "", ready |-> FALSE, term |-> FALSE, clabel |-> FALSE, restarts |-> 0,
                  rAge |-> -1, sAge |-> -1]
 
+\* Migration from a DaemonSet (annotation old-daemonset): when OldDS names one, every node starts with a running, ready pod owned by it
+\* (rs = 0, no template hash, no ExtendedDaemonSet name label); the replica-set sync lists these pods with its own and replaces them
+\* within the rolling-update budget.  OldDS is a definition so that a configuration can override it (OldDS <- ...).
+OldDS == ""
+DSPod == [NewPod("none", 0) EXCEPT !.phase = "Running", !.ready = TRUE, !.sAge = 0]
+IsDSPod(p) == p.rs = 0 /\ p.hash = "none"
+
 -----------------------------------------------------------------------------
 (* abstraction: model variables -> abstract state record *)
 
 PodId(n, i) == (NIdx(n) - 1) * MaxPerNode + i
 
 AbsPodOf(p, n, i) ==
-      [id |-> PodId(n, i), ns |-> NS, name |-> "", node |-> n, pin |-> "nodeName", pinAll |-> TRUE, eds |-> EDSName,
-       rsl |-> p.rs, owner |-> "rs", ownerRS |-> p.rs, ownerName |-> "", hash |-> p.hash, tol |-> TRUE, res |-> "tmpl", res2 |-> "tmpl",
+      [id |-> PodId(n, i), ns |-> NS, name |-> "", node |-> n, pin |-> "nodeName", pinAll |-> TRUE, eds |-> (IF IsDSPod(p) THEN "" ELSE EDSName),
+       rsl |-> p.rs, owner |-> (IF IsDSPod(p) THEN "ds" ELSE "rs"), ownerRS |-> p.rs, ownerName |-> (IF IsDSPod(p) THEN OldDS ELSE ""), hash |-> p.hash, tol |-> TRUE, res |-> "tmpl", res2 |-> "tmpl",
        nodeHash |-> "ok", setLabel |-> "", phase |-> p.phase, ready |-> p.ready, term |-> p.term, sched |-> TRUE,
        stuck |-> FALSE, restarts |-> p.restarts, restartAge |-> p.rAge, waiting |-> "none", startAge |-> p.sAge,
        clabel |-> p.clabel, age |-> 0, born |-> i, foreign |-> FALSE]
@@ -94,7 +101,7 @@ AbsRSsOf(rsv) == LET ex == SelectSeq([i \in DOMAIN TmplSeq |-> i], LAMBDA i : rs
 AbsEDSOf(e) ==
     [key |-> EDSKey, ns |-> NS, name |-> EDSName, defaulted |-> e.defaulted, tmpl |-> e.tmpl, strat |-> Strat,
      ruPaused |-> e.ruPaused, frozen |-> e.frozen, cPaused |-> e.cPaused, cUnpaused |-> e.cUnpaused, cValid |-> e.cValid,
-     oldDS |-> "", active |-> e.active, activeName |-> (IF e.active > 0 THEN RSName(e.active) ELSE ""),
+     oldDS |-> OldDS, active |-> e.active, activeName |-> (IF e.active > 0 THEN RSName(e.active) ELSE ""),
      hasCanary |-> e.hasCanary, canaryRS |-> e.canaryRS, cNodes |-> e.cNodes, state |-> e.state, reason |-> e.reason,
      desired |-> e.desired, current |-> e.current, ready |-> e.ready, available |-> e.available, upToDate |-> e.upToDate,
      ignored |-> 0, condPaused |-> e.condPaused, condFailed |-> e.condFailed]
@@ -130,7 +137,7 @@ EnvEvent(name, post) == EnvEventL(name, name, post)
 -----------------------------------------------------------------------------
 Init ==
     /\ nd = [n \in NodeIds |-> [present |-> TRUE, fits |-> InitFits[NIdx(n)], csel |-> TRUE]]
-    /\ pd = [n \in NodeIds |-> <<>>]
+    /\ pd = [n \in NodeIds |-> IF OldDS = "" THEN <<>> ELSE <<DSPod>>]
     /\ rv = [i \in DOMAIN TmplSeq |-> NoRS]
     /\ ed = [defaulted |-> FALSE, tmpl |-> TmplSeq[1], ruPaused |-> FALSE, frozen |-> FALSE, cPaused |-> FALSE, cUnpaused |-> FALSE,
              cValid |-> 0, active |-> 0, hasCanary |-> FALSE, canaryRS |-> 0, cNodes |-> <<>>, state |-> "", reason |-> "", desired |-> 0,
